@@ -25,7 +25,8 @@ POLY = ['Pseq', 'Pser', 'Place', 'Placep', 'Plazy', 'Pn', 'Plen', 'Pdrop', 'Pstu
         'Pswitch1', 'Pslide']
 NUMERIC = ['Pseries', 'Pgeom', 'Pdiff', 'Pconst', 'Pwrap', 'Pcollect',
            'Pselect', 'Preject', 'Pif', 'Punop', 'Pbinop', 'Pnarop',
-           'Pseed', 'Pfuncn', 'Prout', 'Pfunc']
+           'Pseed', 'Pfuncn', 'Prout', 'Pfunc', 'PfuncnI', 'ProutI', 'PcollectI',
+           'PlazyI']
 
 
 class Gen:
@@ -274,6 +275,28 @@ class Gen:
     def mk_Prout(self, kind, d):
         k = self.nk(kind)
         return ('Prout', [self.lit(k) for _ in range(self.r.randint(0, 5))])
+
+    # values computed from the input value of the pulls -----------------------------
+    def icoef(self, k):
+        return self.r.choice([1, 2, -1]) if k == 'int' else self.r.choice([0.5, 1.0, -2.0])
+
+    def mk_PfuncnI(self, kind, d):
+        k = self.nk(kind)
+        return ('PfuncnI', self.icoef(k), self.lit(k), self.repeats(1, 5, 0.1))
+
+    def mk_ProutI(self, kind, d):
+        k = self.nk(kind)
+        return ('ProutI', self.icoef(k),
+                [self.lit(k) for _ in range(self.r.randint(1, 5))])
+
+    def mk_PcollectI(self, kind, d):
+        k = self.nk(kind)
+        return ('PcollectI', self.icoef(k), self.g(k, d - 1))
+
+    def mk_PlazyI(self, kind, d):
+        k = self.nk(kind)
+        return ('PlazyI', self.icoef(k),
+                [self.lit(k) for _ in range(self.r.randint(1, 4))])
 
     def mk_Pwrap(self, kind, d):
         k = self.nk(kind)
